@@ -54,4 +54,32 @@ CHECKS = {
           "arrays with beat-only, div-only and both time columns must return the same onsets, durations and pitches.",
   "note": "Trusted: vmon/refmodels/timemaps.py, sigmaps.py, pitch.py. f4 columns compared with rel. tol. 2e-6; cells of notes without voice/staff are don't-care.",
  },
+ "C07": {
+  "technique": "online contract on every MatchLine.matchline evaluation (re-parse + field equality + second-format fixpoint), contracts on to_v1/from_instance and on duration/key/time-signature string parsers",
+  "text": "A hook on the matchline property of every line class (all versions) re-parses each produced text through the class's own "
+          "from_matchline and through parse_matchline, compares kind and fields (floats where the format's decimal grid can denote "
+          "them) and demands that formatting is a fixpoint after one round; contracts on to_v1/from_instance compare musical "
+          "content before/after; FractionalSymbolicDuration/key/time-signature strings are judged against an independent reading "
+          "and exact Fraction sums. Workload: every line kind x version with hostile field values, exhaustive key tables, "
+          "the three fixture files re-emitted.",
+  "note": "Trusted: vmon/refmodels/matchline.py. Values the format cannot denote are judged on the fixpoint only; sums beyond the class's 1024 bound are don't-care.",
+ },
+ "C14": {
+  "technique": "post-condition hooks on PerformedPart construction, threshold setter, adjust_offsets_w_sustain, note_array, from_note_array, sanitize_track_numbers vs an event-sweep pedal model",
+  "text": "Every construction / threshold assignment / note_array / from_note_array call is observed and each note's sounding end "
+          "compared with an exact step-function pedal model (release, first later pedal-up, first later re-strike of the pitch); "
+          "threshold monotonicity over sweeps on the same object, seconds/ticks agreement under ppq/mpq, round trip through the "
+          "note array, track renumbering injectivity. Hostile note lists: 1-3 pitches with overlaps and nestings, zero-length "
+          "notes, unsorted order, pedal events before/after all notes, other controllers interleaved.",
+  "note": "Trusted: vmon/refmodels/c14_pedal.py. Exact ties in time (pedal event at a release, equal-time pedal events, onset at the release) are don't-care.",
+ },
+ "C17": {
+  "technique": "contracts on estimate_spelling / estimate_voices / estimate_key / load_score_midi with metamorphic re-invocation of the real functions",
+  "text": "Hooks on the three estimators and the MIDI score importer check sounding-pitch equality and |alter| <= 2, permutation "
+          "invariance (re-invoking the real function on shuffled rows), voice numbering 1..k without gaps and chord-mode "
+          "grouping, valid key names, invariance under octave shifts and duration scaling and equivariance under transposition "
+          "(re-invocation on transformed input, judged only when an independent Krumhansl-Schmuckler reference separates the two "
+          "best keys); imported MIDI scores are compared with an independent mido read of the file.",
+  "note": "Trusted: vmon/refmodels/pitch.py, keyprofile.py (ambiguity guard only), mido. Near-tie key decisions are don't-care.",
+ },
 }
